@@ -60,6 +60,9 @@ func (in Input) Bytes() []byte {
 			// matches still lands in it
 			lo := end - 30000 + r.Intn(2000)
 			hi := end - 64 - r.Intn(2000)
+			if lo < 0 {
+				lo = 0
+			}
 			for i := lo; i < hi; i++ {
 				b[i] = 0x41
 			}
